@@ -343,6 +343,10 @@ func (s *mpSys) apply(op engine.Op) (string, *engine.Violation) {
 				ok = true
 			}
 		}
+		if !ok && exps[0].Status >= 400 && r.Panic == "" && r.Status >= 400 && r.Status < 500 {
+			// the statement says "rejected", it does not fix the code: any client-error answer is a rejection
+			ok = true
+		}
 		if !ok {
 			return bad("status", cond, r, strings.Join(es, "|"), "")
 		}
